@@ -36,6 +36,9 @@ SPECIAL = (
 TEMPLATES = ("{}", "{0}", "{a}", "{name} x", "%s", "%d", "{0!r}", "{{}}", "${x}", "\\n", "e\u0301", "A\u030a")
 
 
+BEYOND_FLOAT = (2 ** 1024, 2 ** 1024 + 1, 2 ** 2000, 10 ** 400)
+
+
 class Bits:
     """Deterministic decoder of one Hypothesis-drawn byte blob into a sequence of choices
     (mixed-radix digits of the blob read as an integer). Hypothesis charges per draw, so every
@@ -140,7 +143,7 @@ def any_nonneg_int(bits, typ):
     if sel < 6:
         pts = sorted({lim - 2, lim - 1, lim, lim + 1, lim + 2, 2 * lim, 255, 256, 257,
                       B ** 4 - 1, B ** 4, 2 ** 31 - 1, 2 ** 31, 2 ** 32, 2 ** 63, 2 ** 64,
-                      2 ** 64 + 1, 10 ** 30})
+                      2 ** 64 + 1, 10 ** 30, 2 ** 1023, 2 ** 1024, 2 ** 1024 + 1, 2 ** 2000})
         return bits.pick(pts)
     return lim + bits.below(2 ** 70)
 
